@@ -257,7 +257,29 @@ _MORE78 = {
     'C18': '; class-level cached values read no per-instance state',
     'C20': '; index inverse of the RDKit bridge',
 }
-for _pid, _t in _MORE78.items():
+_MORE9 = {
+    'C01': '; Morgan seed fields of Element.__hash__',
+    'C02': '; reader hands the full written neighbour list to add_atom_stereo; Morgan seed fields',
+    'C05': '; emptied partner lists filtered in __prepare_rings',
+    'C06': '; scissors pairing of the glued contours (sibling agreement)',
+    'C07': '; every iteration of the matcher-collecting for-else appends or breaks',
+    'C08': '; OR list of one primitive rejected before conversion',
+    'C10': '; cis/trans terminal keys evaluated over positions',
+    'C11': '; slice shortcut evaluated over slice.indices outcomes',
+    'C12': '; prune-condition truth table; cis/trans terminal keys; full neighbour list',
+    'C13': '; back-connection guard of the copy loops',
+    'C14': '; tri-state radical patch',
+    'C15': '; positional radical list of ReactionContainer.__format__',
+    'C17': '; fresh identifier per Morgan layer',
+    'C18': '; strip-charset lint H15',
+}
+for _d in (_MORE78, _MORE9):
+  for _pid, _t in _d.items():
+    if _pid in _MORE:
+        _MORE[_pid] = (_MORE[_pid][0] + _t, _MORE[_pid][1])
+    else:
+        _MORE[_pid] = (_t, '')
+for _pid, _t in {}.items():
     if _pid in _MORE:
         _MORE[_pid] = (_MORE[_pid][0] + _t, _MORE[_pid][1])
     else:
